@@ -3,7 +3,7 @@ from . import common as C, sampling as S
 
 ANCHORS = S.ANCHORS + [("shangrla/core/NonnegMean.py", ["NonnegMean.alpha_mart", "NonnegMean.betting_mart",
                                                         "NonnegMean.shrink_trunc", "welford_mean_var"])]
-MIN_BASED = ("alpha_shrink", "alpha_fixed", "alpha_optcomp", "bet_agrapa", "bet_fixed")   # overall p = min of the history
+MIN_BASED = ("alpha_shrink", "alpha_shrink_f", "alpha_fixed", "alpha_optcomp", "bet_agrapa", "bet_fixed")   # overall p = min of the history
 
 
 def viol(res, what, inp, observed=None):
@@ -12,7 +12,8 @@ def viol(res, what, inp, observed=None):
 
 def filtered(spec, j):
     ty, us = spec["cfg"][j]
-    return ty != "POLLING" and us
+    # with a single contest the selection is that contest's own prefix, so even unfiltered data are only appended to
+    return (ty != "POLLING" and us) or spec["m"] == 1
 
 
 def oracle_history(h, runs):
@@ -76,6 +77,36 @@ def oracle_history(h, runs):
     return bad
 
 
+def oracle_every_cut(h, out):
+    """Any prefix of a contest's data sequence is what some earlier round (with a smaller size for that contest) would have
+    seen, so the p-value must be non-increasing along EVERY cut point of the final sequence, not only at the round
+    boundaries that happened to be generated.  Uses the assertion's own NonnegMean instance as set_p_values left it."""
+    import warnings
+    import numpy as np
+    spec = h["spec"]
+    bad = []
+    if not out["rounds"] or not out["rounds"][-1]["pdone"] or len(set(spec["nums"])) != len(spec["nums"]):
+        return bad
+    rec = out["rounds"][-1]
+    for j, asn in enumerate(out["asns"]):
+        if not filtered(spec, j) or spec["tests"][j] not in MIN_BASED or rec["data"][j][0] != "ok":
+            continue
+        d = np.array(rec["data"][j][1])
+        last = None
+        with warnings.catch_warnings():
+            warnings.simplefilter("ignore")
+            for k in range(1, len(d) + 1):
+                try:
+                    p = float(asn.test.test(d[:k])[0])
+                except Exception:  # noqa  (well-formedness of p-values is C11's business)
+                    break
+                if last is not None and not (p <= last * (1 + 1e-9) + 1e-300):
+                    bad.append(f"an assertion's p-value increases when one more observation is appended ({spec['tests'][j]})")
+                    break
+                last = p
+    return bad
+
+
 def run(ctx, res):
     stats = {}
     # 1. consistent_sampling alone (incl. the exhaustive continuation-after-smaller-sizes domain)
@@ -101,7 +132,7 @@ def run(ctx, res):
                 "all redraw": S.run_history(h, modes=[False] * R, votes_seed=sd[0], mvr_seed=sd[1], shuffle_seed=sd[2]),
                 "all continue": S.run_history(h, modes=[True] * R, votes_seed=sd[0], mvr_seed=sd[1], shuffle_seed=sd[2] + 1)}
         res.oracle_runs += 3
-        for what in oracle_history(h, runs):
+        for what in oracle_history(h, runs) + oracle_every_cut(h, c["out"]):
             viol(res, what, S.hist_case_json(c))
         rs = c["out"]["rounds"]
         grows = any(a["sel"][0] == "ok" and b["sel"][0] == "ok" and len(b["sel"][1]) > len(a["sel"][1]) > 0 for a, b in zip(rs, rs[1:]))
@@ -112,6 +143,17 @@ def run(ctx, res):
         if any(a["pdone"] and b["pdone"] and any(pb > pa for pa, pb in zip(a["p"], b["p"])) for a, b in zip(rs, rs[1:])):
             stats["histories where some p-value goes up (last-entry test / unfiltered data)"] = \
                 stats.get("histories where some p-value goes up (last-entry test / unfiltered data)", 0) + 1
+    # 3. long samples for the p-value clauses (oracle only)
+    for _ in range(ctx.n(150, 1500)):
+        h = S.gen_long_history(ctx.rng)
+        sd = h["seeds"]
+        R = len(h["sizes"])
+        runs = {"as generated": S.run_history(h, votes_seed=sd[0], mvr_seed=sd[1], shuffle_seed=sd[2]),
+                "all continue": S.run_history(h, modes=[True] * R, votes_seed=sd[0], mvr_seed=sd[1], shuffle_seed=sd[2] + 1)}
+        res.oracle_runs += 2
+        stats["long histories (30-70 cards)"] = stats.get("long histories (30-70 cards)", 0) + 1
+        for what in oracle_history(h, runs) + oracle_every_cut(h, runs["as generated"]):
+            viol(res, what, S.hist_case_json({"hist": h, "out": runs["as generated"]}))
     res.exhaustive = True
     res.rule = (f"histories: 3-12 cards, 1-4 contests, 2-4 rounds of non-decreasing size vectors (plus a stream with decreasing / "
                 f"unavailable sizes, ties, preset thresholds and proved flags for the correspondence only), each round redraw or "
